@@ -82,6 +82,13 @@ class _Instrument(ast.NodeTransformer):
                                                                 args=[ast.Constant(opn), load, node.value], keywords=[]))
         return ast.copy_location(new, node)
 
+    def visit_Assign(self, node):
+        self.generic_visit(node)
+        if len(node.targets) == 1 and isinstance(node.targets[0], ast.Name):
+            node.value = ast.copy_location(ast.Call(func=ast.Name(id="__obs", ctx=ast.Load()),
+                                                    args=[ast.Constant(node.targets[0].id), node.value], keywords=[]), node.value)
+        return node
+
     def visit_FormattedValue(self, node):
         self.generic_visit(node)
         node.value = ast.copy_location(ast.Call(func=ast.Name(id="__strarg", ctx=ast.Load()), args=[node.value], keywords=[]), node.value)
@@ -350,11 +357,13 @@ def _execute(src: str, n: int, tape: dict, opts: dict):
             flag("str_of_float")
         return v
 
-    g = {"__name__": "__reduino_script__", "__N": n, "__mark": lambda k: emit("MARK", f"loop {k}") or _jitter(k),
-         "__binop": binop, "__boolopnd": boolopnd, "__strarg": strarg}
+    observed = {}
 
-    def _jitter(k):
-        return None
+    def obs(name, v):
+        observed.setdefault(name, set()).add(type(v).__name__)
+        return v
+
+    g = {"__name__": "__reduino_script__", "__N": n, "__binop": binop, "__boolopnd": boolopnd, "__strarg": strarg, "__obs": obs}
 
     def mark(k):
         if T.jitter:
@@ -377,7 +386,7 @@ def _execute(src: str, n: int, tape: dict, opts: dict):
     for k, v in g.items():
         if not k.startswith("__") and isinstance(v, (int, float, str, bool, list)):
             types_seen[k] = type(v).__name__
-    return {"events": ev, "flags": flags, "types": types_seen}
+    return {"events": ev, "flags": flags, "types": types_seen, "observed": {k: sorted(v) for k, v in observed.items()}}
 
 
 def run_host(src: str, n: int, tape: dict | None = None, opts: dict | None = None, cpu_s: int = 10):
